@@ -394,8 +394,29 @@ def make_bcstep(model, D=None):
             solved = AND([a == b for a, b in cur])
             if E.query(solved != z3.BoolVal(status == 2)):
                 rec("exit-status-vs-all-instantiated")
-        # Inv after the step: enabled, not queued, not the one that just ran  ==>  stable
         just = popped[0]
+        # wake-up events (authoritative: a local computation of the step, true from any state): every bound the step moved, and
+        # 'became a single value', is announced to every enabled propagator that watches it on that domain (other than the one that ran)
+        unannounced = []
+        for d in range(nd):
+            a, b = cur[d]
+            moved_min, moved_max = a > ctx.lo[d], b < ctx.hi[d]
+            for p in range(NP):
+                if p == just:
+                    continue
+                msk = int(pb.triggers[d, p])
+                conds = ([moved_min] if msk & 1 else []) + ([moved_max] if msk & 2 else []) + ([z3.And(z3.Or(moved_min, moved_max), a == b)] if msk & 4 else [])
+                if conds:
+                    unannounced.append(z3.And(OR(conds), as_z3bool(ne[top, p]), z3.Not(as_z3bool(trig[p]))))
+        if unannounced and E.query(OR(unannounced)):
+            m_ = E.model()
+            v_ = dict(prop="C08", kind="moved-bound-not-announced-to-a-watcher", site=f"bc-step/{model}", cls=None, harness="lemma", lemma="bcstep", top=top, ran=just, model=model)
+            v_.update(ctx.witness(m_))
+            v_["queue"] = [bool(E.ev(m_, b_)) for b_ in q]
+            v_["enabled"] = [bool(E.ev(m_, b_)) for b_ in en]
+            v_["after"] = [[E.ev(m_, a_), E.ev(m_, b_)] for a_, b_ in cur]
+            E.acc.violation(v_)
+        # Inv after the step: enabled, not queued, not the one that just ran  ==>  stable
         for p in range(NP):
             if p == just:
                 continue
